@@ -398,7 +398,7 @@ def C04(c):
     cover.cover_unichan(c, "unichan_2p1c", [[S(11)], [S(21)], [DRIVE(0, max_=2)]], checks)
     if not quick:
         cover.cover_unichan(c, "unichan_2p1c_s2", [[S(11), S(12)], [DRIVE(0, max_=2)], [DRIVE(1, max_=2)]], checks, maxs=2)
-    mr, rr = (200, 150) if quick else (3000, 2000)
+    mr, rr = (150, 100) if quick else (3000, 2000)
     for kind in UNI_KINDS:
         scns = []
         for n, s_ in ((2, 1), (2, 2), (4, 1), (4, 2)):
@@ -408,6 +408,36 @@ def C04(c):
                 scns.append(cscn("%s_n%ds%d_v%d_rnd" % (kind, n, s_, variant), kind, n, s_, th, rnd(rr, c.seed * 100 + variant + n), pre_streams=s_))
         for n, group in by_n(scns):
             conform_chan(c, "%s_n%d" % (kind, n), group, "Trace_AbsUni", uni_consts(n, 4, kind, checks))
+    C04_multi(c)
+
+
+def C04_multi(c):
+    """the listeners of a Multi channel are driven streams too: an accepted event reaches every driven listener without further sends"""
+    quick = c.tier == "quick"
+    kf = kf_open("KF-C04-racing-lost-wakeup-multi-atomic") is not None
+    # MultiChan: with at most two events outstanding per listener the wake rule (len_after <= 2) never strands an event ...
+    c.mc("MC_MultiChan", "1p2l_wake", multichan(3, 2), subst={"Script": "Script_1p2l"}, invariants=MCH_STRUCT + ["InvNoLostWakeup"], deadlock=False, required_actions=MCH_ACTIONS + ["MCUnpark"], timeout=1200, workers=8)
+    # ... with three it does, exactly as the recorded finding says; every transition of that model is replayed into the real channel and the
+    # replays that strand an event are matched against the finding
+    if kf:
+        r = c.mc("MC_MultiChan", "l3_strict", multichan(2, 1), subst={"Script": "Script_l3"}, invariants=["InvNoLostWakeup"], deadlock=False, expect="kf", timeout=1200, workers=6)
+        if r["ok"]:
+            c.notes.append("the recorded finding KF-C04-racing-lost-wakeup-multi-atomic is no longer reproduced by the MultiChan model")
+    cover.cover_multichan(c, "multichan_l3", [[S(11), S(12), S(13)], [DRIVE(0, max_=3)]], ["InvNoLostWakeup"] + MULTI_DELIVERY, initial=1,
+                          invariants=tuple(MCH_STRUCT + MCH_DELIVERY + ([] if kf else ["InvNoLostWakeup"])))
+    mr, rr = (150, 100) if quick else (3000, 2000)
+
+    def build(kind):
+        out = []
+        n = 4
+        for s_, nl in ((2, 1), (2, 2)) + (() if quick else ((4, 3),)):
+            th = [[S(11), S(12), S(13)]] + [[DRIVE(i, max_=3)] for i in range(nl)]
+            out += explore2("%s_s%dl%d_3" % (kind, s_, nl), kind, n, s_, th, c, mr, rr, pre_streams=nl)
+            p1 = [SW(21)] if kind != "multi_mmap" else [S(21)]
+            th = [[S(11), S(12)], p1] + [[DRIVE(i, max_=3)] for i in range(nl)]
+            out += explore2("%s_s%dl%d_2p" % (kind, s_, nl), kind, n, s_, th, c, mr, rr, seed_extra=1, pre_streams=nl)
+        return out
+    run_multi(c, MULTI_KINDS, build, ["InvNoLostWakeup", "InvAtMostOncePerListener", "NoPanic"], procs=5, tag="_wake")
 
 
 def run_uni(c, kinds, build, checks, relax_kf=False, procs=4, expect_stalls=False):
@@ -637,8 +667,26 @@ def multifan(kind, churn, initial=(0, 1, 2), s_=4):
 FAN_INV = ["InvThroughout", "InvNoDuplicates", "InvNoPhantomRefs"]
 
 
+def multichan(script_procs, initial, maxs=2, n=4):
+    return {"N": n, "W": 4 * n, "MaxS": maxs, "Procs": list(range(script_procs)), "Initial": set(range(initial))}
+
+
+MCH_STRUCT = list(cover.MULTICHAN_INV)
+MCH_DELIVERY = list(cover.MULTICHAN_DELIVERY)
+MCH_ACTIONS = ["FanRead", "EnqFA", "EnqLoadHead", "EnqPublish", "WakePeek", "DeqFA", "DeqLoadTail", "DeqRelease", "DeqRecedeOk", "KeepRead", "WakerPeek", "WakerLock", "WakerUnlock"]
+
+
 def C03(c):
     quick = c.tier == "quick"
+    # channel level, implementation shaped: MultiChan (one AtomicMove ring per listener + the fan-out loop + wake / waker registration + the
+    # executor tasks), exhaustively; and every transition of a smaller configuration replayed into the real Arc-based atomic channel
+    c.mc("MC_MultiChan", "1p2l", multichan(3, 2), subst={"Script": "Script_1p2l"}, invariants=MCH_STRUCT + MCH_DELIVERY, deadlock=False, required_actions=MCH_ACTIONS + ["MCUnpark"], timeout=1200, workers=8)
+    c.mc("MC_MultiChan", "2p1l", multichan(3, 1), subst={"Script": "Script_2p1l"}, invariants=MCH_STRUCT + MCH_DELIVERY, deadlock=False, required_actions=MCH_ACTIONS, timeout=1200, workers=8)
+    if not quick:
+        c.mc("MC_MultiChan", "2p2l", multichan(4, 2), subst={"Script": "Script_2p2l"}, invariants=MCH_STRUCT + MCH_DELIVERY, deadlock=False, required_actions=MCH_ACTIONS, timeout=1800, workers=10)
+    cover.cover_multichan(c, "multichan_2p1l", [[S(11)], [S(21)], [DRIVE(0, max_=2)]], MULTI_DELIVERY, initial=1, max_paths=2500 if quick else None)
+    if not quick:
+        cover.cover_multichan(c, "multichan_1p2l", [[S(11), S(12)], [DRIVE(0, max_=2)], [DRIVE(1, max_=2)]], MULTI_DELIVERY, initial=2)
     # protocol level: with a fixed listener set the fan-out loop serves every listener exactly once (both sender shapes)
     for kind in ("arc", "ogre"):
         for initial in ((0,), (0, 1, 2)):
@@ -656,6 +704,11 @@ def C03(c):
         return out
     run_multi(c, MULTI_NONLOG, build, MULTI_DELIVERY, procs=5)
     run_multi(c, ["multi_mmap"], build, MULTI_DELIVERY + ["InvSameTotalOrder"], procs=5)
+    # implementation -> specification at the granularity of the code: explored executions (two producers, three listeners, MAX_STREAMS 4) of the
+    # Arc-based atomic channel with every scheduling point recorded, validated step by step against MultiChan
+    th = [[S(11), S(12)], [S(21), S(22)], [DRIVE(0, max_=4)], [DRIVE(1, max_=4)], [POLL(2), POLL(2), POLL(2)]]
+    scns = explore2("multi_arc_atomic_s4l3_ops", "multi_arc_atomic", 4, 4, th, c, mr, rr, seed_extra=17, pre_streams=3, payload="u64")
+    cover.conform_multichan(c, "multi_arc_atomic_l2", scns, MULTI_DELIVERY, maxs=4, n=4, nthreads=5)
 
 
 def lifetime_histories(seed, count, length, s_max, max_sends=3):
@@ -701,6 +754,19 @@ def C10(c):
         for churn in ("add", "remove"):
             c.mc("MC_MultiFan", "%s_%s_sequential" % (kind, churn), multifan(kind, churn), subst={"Events": "Ev3"}, invariants=FAN_INV, init="Init", next_="Next", constraint="Sequential",
                  required_actions=["SendVisit", "ChurnStart", "SyncWrite"], timeout=600, workers=6)
+    # channel level, implementation shaped: MultiChan with create_stream_id / drop_resources / report_stream_dropped / the list rebuild;
+    # sequential histories (ids recycled through the vacant queue) and churn between sends
+    c.mc("MC_MultiChan", "seq", multichan(1, 1), subst={"Script": "Script_seq"}, invariants=MCH_STRUCT + MCH_DELIVERY, deadlock=False,
+         required_actions=["CreateVPop", "CreateKeep", "DropWLock", "DropVPush", "SyncLock", "SyncWrite", "SyncUnlock"], timeout=600, workers=4)
+    c.mc("MC_MultiChan", "recycle", multichan(2, 2), subst={"Script": "Script_recycle"}, invariants=MCH_STRUCT + MCH_DELIVERY, deadlock=False,
+         required_actions=["CreateVPop", "DropVPush", "SyncWrite"], timeout=600, workers=6)
+    for script, initial in (("Script_add", 1), ("Script_remove", 2)):
+        c.mc("MC_MultiChan", script[7:] + "_sequential", multichan(3, initial), subst={"Script": script}, invariants=MCH_STRUCT + MCH_DELIVERY, deadlock=False, constraint="Sequential",
+             required_actions=["SyncWrite", "FanRead"], timeout=1200, workers=8)
+    cover.cover_multichan(c, "multichan_seq", [[S(11), CREATE(), S(12), DROPS(0), S(13), CREATE(), S(14), POLL(2), POLL(2), POLL(1), POLL(1), POLL(1), POLL(1)]],
+                          MULTI_DELIVERY + ["InvRunningCount"], initial=1, idmap=[0, 1, 0])
+    cover.cover_multichan(c, "multichan_recycle", [[S(11), DROPS(0), CREATE(), S(12), POLL(2), POLL(2)], [DRIVE(1, max_=2)]], MULTI_DELIVERY, initial=2, idmap=[0, 1, 0],
+                          max_paths=1500 if quick else None)
     cnt, ln = (10, 12) if quick else (80, 16)
 
     def build(kind):
@@ -757,6 +823,19 @@ def C17(c):
                 c.notes.append("the recorded finding KF-C17 is no longer reproduced by the MultiFan model (%s, %s)" % (kind, churn))
         else:
             c.mc("MC_MultiFan", "%s_%s" % (kind, churn), multifan(kind, churn), subst={"Events": "Ev2"}, invariants=FAN_INV, init="Init", next_="Next", timeout=600, workers=6)
+    # channel level, implementation shaped: MultiChan -- the fan-out loop reading the list while create / drop rewrite it.  Adding a listener
+    # is safe for the Arc channels; removing one is the recorded finding (a listener that exists throughout gets an event twice / not at all)
+    c.mc("MC_MultiChan", "add", multichan(3, 1), subst={"Script": "Script_add"}, invariants=MCH_STRUCT + MCH_DELIVERY, deadlock=False, required_actions=["SyncWrite", "FanRead", "CreateKeep"], timeout=1200, workers=8)
+    if kf_open("KF-C17-listener-list-rewritten-under-senders"):
+        r = c.mc("MC_MultiChan", "remove_strict", multichan(3, 2), subst={"Script": "Script_remove"}, invariants=MCH_DELIVERY, deadlock=False, expect="kf", timeout=1200, workers=8)
+        if r["ok"]:
+            c.notes.append("the recorded finding KF-C17 is no longer reproduced by the MultiChan model")
+    else:
+        c.mc("MC_MultiChan", "remove", multichan(3, 2), subst={"Script": "Script_remove"}, invariants=MCH_STRUCT + MCH_DELIVERY, deadlock=False, timeout=1200, workers=8)
+    # every transition of the small churn configurations replayed into the real channel (the structural invariants are the model's; the
+    # delivery verdicts on the real executions are the L1 oracle's, which attributes what happens during churn to the recorded finding)
+    cover.cover_multichan(c, "multichan_add1", [[S(11)], [CREATE(), POLL(1), POLL(1)]], MULTI_DELIVERY, initial=1, invariants=tuple(MCH_STRUCT), max_paths=2500 if quick else None)
+    cover.cover_multichan(c, "multichan_remove1", [[S(11)], [DROPS(0)], [POLL(1), POLL(1)]], MULTI_DELIVERY, initial=2, invariants=tuple(MCH_STRUCT), max_paths=2500 if quick else None)
     mr, rr = (200, 150) if quick else (4000, 3000)
     checks = ["InvNoUseAfterFree"] + MULTI_DELIVERY + ["InvCapacityRestored", "InvDestroyedAtMostOnce"]
 
@@ -776,6 +855,17 @@ def C17(c):
                     out.append(sc)
         return out
     run_multi(c, MULTI_KINDS, build, checks, procs=5)
+    # implementation -> specification at the granularity of the code: the same churn executions of the Arc-based atomic channel once more with
+    # every scheduling point recorded, validated step by step against MultiChan (structural invariants along the real behaviour) and judged by L1
+    scns = build("multi_arc_atomic")
+    for s_ in scns:
+        s_.pop("probe", None)
+        s_["id"] += "_ops"
+        if s_["explore"]["mode"] == "dfs":
+            s_["explore"]["max_runs"] = max(1, s_["explore"]["max_runs"] // 2)
+        elif s_["explore"]["mode"] == "random":
+            s_["explore"]["runs"] = max(1, s_["explore"]["runs"] // 2)
+    cover.conform_multichan(c, "multi_arc_atomic_l2", scns, checks, maxs=4, n=4, nthreads=5)
 
 
 def C05(c):
@@ -811,6 +901,12 @@ def C05(c):
 def C07_multi(c):
     quick = c.tier == "quick"
     mr, rr = (150, 100) if quick else (3000, 2000)
+    # MultiChan: cancel_all_streams against every step of two listeners' polls (and a concurrent send); every transition of the
+    # one-listener configuration replayed into the real channel
+    c.mc("MC_MultiChan", "cancel", multichan(4, 2), subst={"Script": "Script_cancel"}, invariants=MCH_STRUCT + ["InvCancelEnds", "InvNoDuplicates"], deadlock=False,
+         required_actions=["CancelNext", "CancelClear", "CancelWakePeek", "CancelWakeLock", "KeepRead", "WakerLock"], timeout=1200, workers=8)
+    cover.cover_multichan(c, "multichan_cancel1", [[S(11)], [CANCEL_ALL], [DRIVE(0, max_=9)]], ["InvCancelEndsStreams", "InvAtMostOncePerListener", "InvNoInvention", "NoPanic"], initial=1,
+                          max_paths=2500 if quick else None)
 
     def build(kind):
         out = []
